@@ -470,6 +470,10 @@ class Gen:
             m = ["T", m]
         if not self.o["nonsmooth"]:
             return ["msum", m]
+        if rng.random() < 0.4:
+            me, _ = self.matrix(depth)
+            if me is not None:
+                return ["fro", me]
         return ["fro", m]
 
 
